@@ -54,6 +54,9 @@ impl Gen {
         out
     }
 
+    /// one consonant or vowel of the core inventory
+    pub fn pick_cv(&mut self) -> String { if self.ch(1, 2) { self.pick(CONS) } else { self.pick(VOWS) } }
+
     pub fn words(&mut self, n: usize) -> Vec<String> { (0..n).map(|_| self.word()).collect() }
 
     fn binmod(&mut self) -> &'static str { if self.ch(1, 2) { "+" } else { "-" } }
@@ -174,7 +177,8 @@ impl Gen {
             // substitution, k in / k out
             0..=7 => {
                 let k = 1 + self.r(2);
-                let ins: Vec<String> = (0..k).map(|_| self.seg_el(p)).collect();
+                // inputs are mostly segment elements; sometimes a structure or a syllable (followed / preceded by others)
+                let ins: Vec<String> = (0..k).map(|_| match self.r(12) { 0 => self.struct_el(p), 1 => self.syll_el(), _ => self.seg_el(p) }).collect();
                 let outs: Vec<String> = ins.iter().map(|i| if i.starts_with('{') { let n = i.matches(',').count() + 1; format!("{{{}}}", (0..n).map(|_| self.seg()).collect::<Vec<_>>().join(", ")) } else { self.out_el(p) }).collect();
                 let mut o = outs.join(" ");
                 // occasionally uneven lengths (sub-insert / sub-delete)
@@ -184,11 +188,11 @@ impl Gen {
                 format!("{i} {arrow} {o}")
             }
             // deletion
-            8..=10 => { let k = 1 + self.r(2); let ins: Vec<String> = (0..k).map(|_| if self.ch(1, 8) && p != Profile::Tame { "$".to_string() } else if self.ch(1, 10) { self.syll_el() } else { self.seg_el(p) }).collect(); format!("{} {arrow} {}", ins.join(" "), if self.ch(1, 2) { "*" } else { "∅" }) }
+            8..=10 => { let k = 1 + self.r(2); let ins: Vec<String> = (0..k).map(|_| if self.ch(1, 8) && p != Profile::Tame { "$".to_string() } else if self.ch(1, 10) { self.syll_el() } else if self.ch(1, 10) { self.struct_el(p) } else { self.seg_el(p) }).collect(); format!("{} {arrow} {}", ins.join(" "), if self.ch(1, 2) { "*" } else { "∅" }) }
             // insertion (always with an environment)
             11..=13 => { let o = match self.r(8) { 0 if p != Profile::Tame => "$".to_string(), 1 => format!("{} $", self.seg()), 2 => self.struct_el(p).replace("..", "a"), _ => self.ipa_el(p, true) }; let c = format!("{} {arrow} {o}", if self.ch(1, 2) { "*" } else { "∅" }); return self.ins_env(p, c) }
             // metathesis
-            14..=15 => { let a = self.seg_el(p); let b = self.seg_el(p); let mid = if self.ch(1, 4) && p != Profile::Tame { " ... " } else { " " }; format!("{a}{mid}{b} {arrow} &") }
+            14..=15 => { let a = if self.ch(1, 8) { self.struct_el(p) } else { self.seg_el(p) }; let b = if a.starts_with('⟨') && self.ch(1, 2) { self.struct_el(p) } else { self.seg_el(p) }; let mid = if self.ch(1, 4) && p != Profile::Tame { " ... " } else { " " }; format!("{a}{mid}{b} {arrow} &") }
             // variables
             16 => { let a = self.matrix(p, false, false); let b = self.group_el(p); format!("{a}=1 {b}=2 {arrow} 2 1") }
             // syllable / prosody
